@@ -23,13 +23,20 @@ def main():
             tlc_ok(fixed, "L4App_failstart_fixed")
             model_leak = any("FailedStartLeavesNothing" in e for e in asis["errors"])
             log(f"model: lifecycle ok ({ok['distinct']} states); failed Start leaves sockets bound in the model of the code as it is: {model_leak}; not with cleanup: True")
+            aerr = run_tlc(tmp, "L4App.tla", "L4App_accepterr.cfg", timeout=600)
+            aerr_fixed = run_tlc(tmp, "L4App.tla", "L4App_accepterr_fixed.cfg", timeout=600)
+            tlc_ok(aerr_fixed, "L4App_accepterr_fixed")
+            log(f"model: a transient Accept error leaves a bound socket unserved in the model of the code as it is: {any('ServedWhileBound' in e for e in aerr['errors'])}; not when the loop goes on after it: True ({aerr_fixed['distinct']} states)")
             tr = os.path.join(tmp, "app.ndjson")
             run_driver(vdrive, ["app-run", "-out", tr], timeout=600)
             n, bad, st = validate_traces(tmp, tr, "app_traces.ndjson", "L4AppTrace.tla", "L4AppTrace.cfg", max_shards=1)
             traces = {json.loads(l)["id"]: json.loads(l) for l in open(tr)}
             for b in bad:
                 t = traces[b["id"]]
-                log(f"OBSERVATION app lifecycle: {'; '.join(b['clauses'])} (run {b['id']}: start error {t['startErrText']!r}, served after Start {t['afterStart']})")
+                if t.get("kind") == "accept":
+                    log(f"OBSERVATION serve loop: {'; '.join(b['clauses'])} (run {b['id']}: {t['net']}, error kind {t['err']}, served before {t['servedBefore']}, served after {t['servedAfter']}, loop ended {t['loopEnded']})")
+                else:
+                    log(f"OBSERVATION app lifecycle: {'; '.join(b['clauses'])} (run {b['id']}: start error {t['startErrText']!r}, served after Start {t['afterStart']})")
             log(f"{n} runs of the real App judged by TLC, {len(bad)} with observations")
             # ---- the process-wide peers pool across configuration loads (L4Peers) ----
             okp = run_tlc(tmp, "L4Peers_MC.tla", "L4Peers_nofail.cfg", timeout=600)
@@ -37,6 +44,10 @@ def main():
             asisp = run_tlc(tmp, "L4Peers_MC.tla", "L4Peers_asis.cfg", timeout=600)
             fixedp = run_tlc(tmp, "L4Peers_MC.tla", "L4Peers_fixed.cfg", timeout=600)
             tlc_ok(fixedp, "L4Peers_fixed")
+            actp = run_tlc(tmp, "L4Peers_MC.tla", "L4Peers_active_asis.cfg", timeout=600)
+            actp_fixed = run_tlc(tmp, "L4Peers_MC.tla", "L4Peers_active_fixed.cfg", timeout=600)
+            tlc_ok(actp_fixed, "L4Peers_active_fixed")
+            log(f"model: an 'unhealthy' verdict survives the handler whose checker wrote it, in the model of the code as it is: {any('Watched' in e for e in actp['errors'])}; not when the verdict is kept per handler: True")
             log(f"model: peers pool ok without failed loads ({okp['distinct']} states); a failed load breaks sharing in the model of the code as it is: {any('Shared' in e for e in asisp['errors'])}; not when Cleanup deletes only what was stored: True")
             trp = os.path.join(tmp, "peers.ndjson")
             run_driver(vdrive, ["peers-run", "-out", trp], timeout=600)
